@@ -462,7 +462,15 @@ def rules(tier):
             # C06-cb: mask of a multiword's later words sliced from the run's first letters
             ('C06.R15', _shared_rule('c03', 'r2_mask_producer', lower_only=False)),
             # C19-ca idea: a counter read through getattr with a default under a misspelt name
-            ('C06.R16', _shared_rule('plumbing', 'defaulted_getattr'))]
+            ('C06.R16', _shared_rule('plumbing', 'defaulted_getattr')),
+            # C06-da: Digits lists saved as ASCII - a non-ASCII digit aborts the save half way
+            ('C06.R17', _shared_rule('c07', 'r2_encoding_agreement')),
+            # C05-da idea: detector results unpacked in the wrong order tally the wrong counter
+            ('C06.R18', _shared_rule('plumbing', 'unpack_order')),
+            # ruleset files hold one complete list
+            ('C06.R19', _shared_rule('plumbing', 'writers_truncate')),
+            # probabilities reach the files with all their digits
+            ('C06.R20', _shared_rule('plumbing', 'float_text_exact'))]
 
 
 META = {
